@@ -6,12 +6,15 @@ package server_test
 import (
 	"context"
 	"fmt"
+	"os"
 	"sort"
+	"strconv"
 	"strings"
 	"testing"
 	"time"
 
 	"github.com/pilosa/pilosa"
+	"github.com/pilosa/pilosa/internal/vkit"
 	"github.com/pilosa/pilosa/test"
 	"pgregory.net/rapid"
 )
@@ -33,7 +36,22 @@ type vgtServer struct {
 	seq int
 }
 
-func vgtStartServer() *vgtServer { return &vgtServer{cmd: test.MustRunCommand()} }
+// vgtSetLocalZone gives the test process (hence the in-process server) a local time zone that is not UTC, chosen
+// by the shard seed. Everything stored and queried is defined in UTC, so no answer may depend on it.
+func vgtSetLocalZone() {
+	offsets := []int{-11 * 3600, -(3*3600 + 1800), 5*3600 + 1800, 13 * 3600}
+	seed, _ := strconv.Atoi(os.Getenv("VERIF_SEED_EFF"))
+	if seed < 0 {
+		seed = -seed
+	}
+	time.Local = time.FixedZone("verif", offsets[seed%len(offsets)])
+	vkit.Extra("serverLocalZoneOffsetSeconds", offsets[seed%len(offsets)])
+}
+
+func vgtStartServer() *vgtServer {
+	vgtSetLocalZone()
+	return &vgtServer{cmd: test.MustRunCommand()}
+}
 
 func (s *vgtServer) Close() { s.cmd.Close() }
 
